@@ -1,4 +1,5 @@
 import McpModel.Wire.Ref
+import McpModel.Wire.Retry
 import McpModel.Wire.Sse
 import McpModel.Wire.Result
 import McpModel.Wire.Input
@@ -232,6 +233,8 @@ inductive Clause where
   | dtWrite | badFrame | writtenDiffers
   | cwCrash (c : Crash) | cwGarbled (n : Nat) | cwLost (m : Msg)
   | logDiffers (passed logged : Nat)
+  | retryResponsesAltered | retryStateAltered | retryNotDecodedAlike
+  | toolAnnHintLost | toolAnnChanged | cloneAliased | cloneDiffers
   | refRefused | refChanged | refInconsistentWritten | refInconsistentAccepted | refReencDiffers
   | dtNdReader (c : Crash) | ndNotValueByValue
   | writePanic02 | flushedEarly | notOnItsOwn | arrayNotExact | withheld (hasNotif : Bool) | lastOnItsOwn
@@ -883,6 +886,41 @@ def logMonitor (passed : List Passed) (o : LogObs) : Option Clause :=
   match o with
   | .other => some .badObservation
   | .entries l => if entriesAre passed l then none else some (.logDiffers passed.length l.length)
+
+/-! ## what a retried request carries (multi round trip) -/
+
+/-- `mrtr.retry`: the two members of the params the client sends again, and what the server's decoder made of them -/
+structure RetryObs where
+  sentResp : Option JVal
+  sentState : Option JVal
+  back : Option (List (Bytes × RespKind) × Bytes)
+deriving Repr, Inhabited
+
+def kindD (v : JVal) : RespKind := match respKindOf v with | .ok k => k | .error _ => .roots
+
+def allDiscriminated (rs : List (Bytes × JVal)) : Bool := rs.all (fun p => match respKindOf p.2 with | .ok _ => true | .error _ => false)
+
+def respIntact (rs : List (Bytes × JVal)) (o : RetryObs) : Bool :=
+  match o.sentResp with
+  | none => rs.isEmpty
+  | some v => !rs.isEmpty && sameJ v (.obj rs)
+
+def stateIntact (state : Bytes) (o : RetryObs) : Bool :=
+  match o.sentState with
+  | none => state.isEmpty
+  | some v => !state.isEmpty && v == .str state
+
+def backAlike (rs : List (Bytes × JVal)) (state : Bytes) (o : RetryObs) : Bool :=
+  !allDiscriminated rs ||
+  (match o.back with
+    | none => false
+    | some (ks, s) => s == state && ks.length == rs.length && rs.all (fun p => ks.contains (p.1, kindD p.2)))
+
+def retryMonitor (rs : List (Bytes × JVal)) (state : Bytes) (o : RetryObs) : Option Clause :=
+  if !respIntact rs o then some .retryResponsesAltered
+  else if !stateIntact state o then some .retryStateAltered
+  else if !backAlike rs state o then some .retryNotDecodedAlike
+  else none
 
 /-! ## the `CompleteReference` codec -/
 
